@@ -2,7 +2,7 @@
 # mk_sandbox.sh: (re)creates /var/tmp/sb = a scratch worktree of /repo (HEAD) + a copy of the committed-or-not
 # /verif tree whose paths point at that worktree. Seeds are applied there, so /repo stays clean while
 # long checks run against it. Remove with: tools/mk_sandbox.sh rm
-SB=/var/tmp/sb
+SB=${SB:-/var/tmp/sb}
 if [ -d $SB/repo ]; then git -C /repo worktree remove --force $SB/repo 2>/dev/null; fi
 rm -rf $SB
 [ "${1:-}" = rm ] && { git -C /repo worktree prune; exit 0; }
